@@ -287,6 +287,24 @@ def witness(ctx, k):
                   % inner)
         c = wsdlkit.client(wsdlkit.wsdl_doc(schema, input="E"), nosend=True)
         return b"nil" not in wsdlkit.envelope_bytes(c.service.f({"req": None, "r2": "x"}))
+    if kind == "block-prefix-clash":
+        tns = wsdlkit.TNS
+        other = ('<xsd:schema targetNamespace="urn:o" elementFormDefault="qualified"><xsd:complexType name="O">'
+                 '<xsd:sequence><xsd:element name="o" type="xsd:int"/></xsd:sequence></xsd:complexType></xsd:schema>')
+        blk2 = ('<xsd:schema targetNamespace="%s" elementFormDefault="qualified" xmlns:p="urn:o"><xsd:import '
+                'namespace="urn:o"/><xsd:element name="E2" type="p:O"/></xsd:schema>' % tns)
+        w = wsdlkit.wsdl_doc('<xsd:complexType name="A"><xsd:sequence><xsd:element name="a" type="xsd:int"/>'
+                             '</xsd:sequence></xsd:complexType><xsd:element name="E1" type="p:A"/>',
+                             input=["E1", "E2"], extra_schemas=blk2 + other)
+        w = w.replace(b'<xsd:schema targetNamespace="%s" elementFormDefault="qualified">' % tns.encode(),
+                      b'<xsd:schema targetNamespace="%s" elementFormDefault="qualified" xmlns:p="%s">'
+                      % (tns.encode(), tns.encode()), 1)
+        try:
+            c = wsdlkit.client(w, nosend=True)
+            c.service.f({"a": 1}, {"o": 2})
+            return False
+        except Exception:
+            return True
     if kind == "block-form":
         extra = ('<xsd:schema targetNamespace="%s" elementFormDefault="qualified"><xsd:complexType name="T2">'
                  '<xsd:sequence><xsd:element name="m" type="xsd:int"/></xsd:sequence></xsd:complexType>'
